@@ -127,6 +127,43 @@ def mutate(fn, old, new):
     return out
 
 
+# ----------------------------------------------------------------------------- TLC runs side by side
+def parallel_tlc_cases(ctx, jobs, workers=2, timeout=3000):
+    """jobs: [(label, spec_path, cfg_path)] -> [cases of job 1, cases of job 2, ...].
+
+    TLC generates initial states on a single thread, so independent case enumerations are run as separate
+    TLC processes side by side (at most four).  Only the subprocesses run concurrently; the bookkeeping of
+    the run context (state counts, tlc_runs) is done afterwards on the calling thread, exactly as
+    Ctx.tlc / Ctx.tlc_cases do it."""
+    import os
+    from concurrent.futures import ThreadPoolExecutor
+    from . import tlc as T
+    from .core import ROOT, MachineryError
+
+    def one(ij):
+        i, (label, spec, cfg) = ij
+        return T.run(spec, cfg, workers=workers, scratch=os.path.join(ctx.scratch, "job%d" % i), dump=True, timeout=timeout)
+
+    with ThreadPoolExecutor(min(4, max(1, len(jobs)))) as ex:
+        results = list(ex.map(one, enumerate(jobs)))
+    out = []
+    for (label, spec, cfg), r in zip(jobs, results):
+        ctx.states += r.distinct
+        ctx.transitions += r.generated
+        ctx.tlc_runs.append({"spec": os.path.relpath(spec, ROOT), "cfg": os.path.basename(cfg), "label": label,
+                             "distinct": r.distinct, "generated": r.generated, "depth": r.depth,
+                             "wall_s": round(r.wall_s, 2), "ok": r.ok, "violated": r.violated})
+        cases = T.read_dump_json(r.dump, "out")
+        try:
+            os.remove(r.dump)
+        except OSError:
+            pass
+        if not cases:
+            raise MachineryError("no cases exported by %s" % spec)
+        out.append(cases)
+    return out
+
+
 # ----------------------------------------------------------------------------- TLC verdicts
 class Verdicts:
     """Collects call records and lets ONE TLC run of DivisionsTrace decide them.  Records with identical
@@ -169,4 +206,4 @@ class Verdicts:
 
 
 __all__ = ["KINDS", "NA", "UNKNOWN", "Verdicts", "dd", "frame_of", "guarded", "index_of", "label_of", "mutate", "observe_as_ranks",
-           "patched_attr", "source_of"]
+           "parallel_tlc_cases", "patched_attr", "source_of"]
